@@ -21,7 +21,7 @@ def logisic_dynamics(n=20, p=0.1, t=100, r=3.99, sigma=0.1, seed=42):
     A = A.T
 
     # Since the row sums equal to 1 the Laplacian matrix is easy...
-    L = np.eye(n) - A
+    L = np.eye(n) - A.T
     L = np.array(L)
 
     XY = np.zeros((t, n))
